@@ -229,7 +229,11 @@ func canonDoc(v interface{}) map[string]interface{} {
 
 func runRequest(t *toks, w *bufio.Writer) {
 	split := t.next()
-	req, err := base64.StdEncoding.DecodeString(t.next())
+	tok := t.next()
+	if tok == "-" { // the empty request
+		tok = ""
+	}
+	req, err := base64.StdEncoding.DecodeString(tok)
 	if err != nil {
 		panic(err)
 	}
